@@ -203,3 +203,47 @@ M("c18-vector-view-loses-domain", "C18", VECTORS,
         instance.domain = domain
         instance._variables = list(variables)  # Copy the list''', '''        instance.ub = ub
         instance._variables = list(variables)  # Copy the list''', "R18.3", "VectorVariable._from_variables")
+
+# ----------------------------------------------------------------------------- C19
+M("c19-sqrt-sparse-unsanitised", "C19", COMPILER,
+  '''                result[indices] = 0.5 / np.sqrt(x[indices])
+                return _sanitize_derivatives(result)''', '''                result[indices] = 0.5 / np.sqrt(x[indices])
+                return result''', "R19.1", "grad_sqrt_sparse")
+M("c19-log-dense-unsanitised", "C19", COMPILER,
+  '''                raw = 1.0 / x
+                return _sanitize_derivatives(raw)''', '''                raw = 1.0 / x
+                return raw''', "R19.1", "grad_log")
+M("c19-general-gradient-unsanitised", "C19", COMPILER,
+  '''        raw = np.array([fn(x) for fn in grad_fns])
+        return _sanitize_derivatives(raw)
+
+    return symbolic_gradient''', '''        raw = np.array([fn(x) for fn in grad_fns])
+        return raw
+
+    return symbolic_gradient''', "R19.1", "symbolic_gradient")
+M("c19-jacobian-unsanitised", "C19", AUTODIFF,
+  '''                result[i, j] = compiled_elements[i][j](x)
+        return _sanitize_derivatives(result)''', '''                result[i, j] = compiled_elements[i][j](x)
+        return result''', "R19.1", "jacobian_fn")
+M("c19-hessian-power-sparse-unsanitised", "C19", AUTODIFF,
+  '''                    result[indices, indices] = diag_vals
+                    return _sanitize_derivatives(result)''', '''                    result[indices, indices] = diag_vals
+                    return result''', "R19.1", "hess_power_sparse")
+M("c19-swap-posinf-neginf", "C19", COMPILER,
+  '''posinf=_LARGE_GRADIENT, neginf=-_LARGE_GRADIENT''', '''posinf=-_LARGE_GRADIENT, neginf=_LARGE_GRADIENT''', "R19.3", "_sanitize_derivatives")
+M("c19-fast-path-any-finite", "C19", COMPILER,
+  '''    if np.all(np.isfinite(arr)):
+        return arr''', '''    if np.any(np.isfinite(arr)):
+        return arr''', "R19.3", "_sanitize_derivatives")
+M("c19-nan-to-one", "C19", COMPILER,
+  '''np.nan_to_num(arr, nan=0.0,''', '''np.nan_to_num(arr, nan=1.0,''', "R19.3", "_sanitize_derivatives")
+M("c19-new-pole-op-in-vectorised", "C19", COMPILER,
+  '''            def grad_abs(x: NDArray[np.floating]) -> NDArray[np.floating]:
+                return np.sign(x)''', '''            def grad_abs(x: NDArray[np.floating]) -> NDArray[np.floating]:
+                return x / np.abs(x)''', "R19.1", "grad_abs")
+M("c19-solver-jac-from-raw-compile", "C19", SCIPY,
+  '''        c_jac_fn = compile_jacobian([c_expr], variables)''', '''        from optyx.core.autodiff import gradient as _g
+        _rows = [compile_expression(_g(c_expr, v), variables) for v in variables]
+        c_jac_fn = lambda x, rows=_rows: np.array([r(x) for r in rows])''', "R19.4", "constraint-dict")
+M("c19-hess-log-dense-unsanitised", "C19", AUTODIFF,
+  '''                    return np.diag(_sanitize_derivatives(-1.0 / (x**2)))''', '''                    return np.diag(-1.0 / (x**2))''', "R19.1", "hess_log")
